@@ -104,7 +104,11 @@ fn opt_hex(s: &str) -> Option<String> {
 /// Format a report (not inside panic!) with recording on; returns
 /// (panicked?, output, recording).
 /// plain: 0 = no guard, 1 = one guard alive, 2 = an outer guard alive while an inner one has
-/// been created and dropped, 3 = a guard created and dropped before formatting.
+/// been created and dropped, 3 = a guard created and dropped before formatting,
+/// 4 = two guards created, the FIRST one dropped (not in LIFO order), the second alive,
+/// 5 = two guards created, the first dropped, then the second: none alive,
+/// 6 = three guards created, the middle one dropped: the first and the third alive,
+/// 7 = two created, first dropped, a third created and dropped: the second still alive.
 fn format_report(report: &ErrorReport, plain: u8) -> (bool, String, hooks::Recording) {
     hooks::start_recording();
     let out = catch_unwind(AssertUnwindSafe(|| {
@@ -113,7 +117,20 @@ fn format_report(report: &ErrorReport, plain: u8) -> (bool, String, hooks::Recor
             let inner = PlainOutputGuard::new();
             drop(inner);
         }
-        format!("{}", report)
+        let mut keep: Vec<PlainOutputGuard> = Vec::new();
+        if plain >= 4 {
+            let a = PlainOutputGuard::new();
+            let b = PlainOutputGuard::new();
+            match plain {
+                4 => { drop(a); keep.push(b); }
+                5 => { drop(a); drop(b); }
+                6 => { let c = PlainOutputGuard::new(); drop(b); keep.push(a); keep.push(c); }
+                _ => { drop(a); let c = PlainOutputGuard::new(); drop(c); keep.push(b); }
+            }
+        }
+        let out = format!("{}", report);
+        drop(keep);
+        out
     }));
     let rec = hooks::take_recording().unwrap_or_default();
     match out {
